@@ -65,17 +65,22 @@ def deepcopy(eng, s, args, kwargs):
     x = eng.as_val(s, x)
     if x.ty in ("none", "bool", "int", "float", "str"):
         return [(x, s)]
+    # deepcopy writes nothing that exists: the heap arrays are kept; the copies live in the cells [base, top) that
+    # nothing has constrained so far (closedness facts only speak about live cells)
     old = s.heap
-    fields = sorted(set(old.fld.keys()) | {"data", "children", "type", "value"})
-    for fn in fields:
+    for fn in ("data", "children", "type", "value"):
         old.field_arr(fn)
-    new = old.havoc(list(ARR_KINDS), fields, "dcp")
+    new = old.copy()
     base = old.alloc
+    new.alloc = fresh("dcp_alloc", smt.I)
     s.assume(new.alloc > base)
-    s.assume(*new.frame_facts(old, list(ARR_KINDS), fields, lambda r: z3.BoolVal(False)))
-    s.assume(*new.closed_facts())
     s.heap = new
     s.assume(*dc_axioms(new, base, new.alloc))
+    # what the copies contain is allocated (they only contain copies and shared immutable values)
+    a, b, i = z3.Ints("dcl_a dcl_b dcl_i")
+    v = new.lget(a, i)
+    s.assume(z3.ForAll([a, i], z3.Implies(z3.And(base <= a, a < new.alloc, is_ref(v)), z3.And(get_ref(v) >= 0, get_ref(v) < new.alloc)),
+                       patterns=[v]))
     res = fresh("deepcopy", Val)
     if x.ty is None:
         s.assume(z3.If(is_ref(x.t), z3.And(is_ref(res), DC(get_ref(res), get_ref(x.t))), res == x.t))
